@@ -53,6 +53,7 @@ func checkC16(w *World, r *Report) {
 	r.Rule("C16.fieldwise", "P8", "store migrations: v3 copies InitiallyLocked, Sent, Withdrawn of every pool from the same-named old fields; v2 sets InitiallyLocked <- Vested, Withdrawn <- Withdrawn and Sent from exactly the four legacy counters; owners map to owners; every old pool is carried over", 9)
 	r.Rule("C16.accounts", "P4", "the account upgrade stores only StartTime and EndTime of an existing ContinuousVestingAccount, each derived from its own old value", 3)
 	r.Rule("C16.params", "P5", "each parameter migration validates the migrated value before storing it (= C13.validated restricted to migrations)", 3)
+	r.Rule("C16.paramfields", "P8", "the minter parameter migration describes the same schedule: MintDenom, StartTime and - for every period - SequenceId and EndTime are plain copies of the same-named legacy values (no renumbering, no constant, no arithmetic), every legacy period is carried over (loop without early exit), and the period's configuration is built from the legacy period's own configuration objects", 6)
 	if !ro.checkFloors(r) {
 		return
 	}
@@ -423,6 +424,82 @@ func checkC16(w *World, r *Report) {
 	}
 	// ---------- C16.params ----------
 	checkValidatedParamWrites(w, r, "C16.params", func(f *ssa.Function) bool { return strings.Contains(funcName(f), "/migrations/") })
+	// ---------- C16.paramfields ----------
+	if mp := w.Func("x/cfeminter/migrations/v3.MigrateParams"); mp == nil {
+		r.Unk("infra.anchor", "x/cfeminter/migrations/v3.MigrateParams", "", "anchor not found")
+	} else {
+		tr := w.Tracer()
+		tr.Depth = 4
+		tr.NoIndex = true
+		// plainCopy: the value is, on every path, a copy of a legacy value read from the old parameter set whose field has
+		// the wanted name: no constant, no arithmetic, no index used as a value
+		plainCopy := func(o *Origin, field string) (bool, string) {
+			n := 0
+			for _, l := range o.Leaves {
+				switch l.Kind {
+				case "outparam", "call", "param", "global":
+					if strings.HasSuffix(l.Path, "."+field) {
+						n++
+						continue
+					}
+					if l.Path == "" && (l.Kind == "call" || l.Kind == "param") {
+						continue // the context / subspace handle the legacy set is read with
+					}
+					return false, "it also depends on " + l.String()
+				case "const":
+					return false, "a constant (" + l.String() + ") enters it"
+				case "zero":
+					return false, "it can be the zero value"
+				default:
+					return false, "it depends on " + l.String()
+				}
+			}
+			for op := range o.Ops {
+				if strings.HasPrefix(op, "op") {
+					return false, "arithmetic (" + op + ") is applied to it"
+				}
+			}
+			return n > 0, "no legacy " + field + " on its slice"
+		}
+		want := map[string][]string{"Params": {"MintDenom", "StartTime"}, "Minter": {"SequenceId", "EndTime"}}
+		seen := map[string]bool{}
+		for _, sb := range w.storesBelowP(mp, func(fs FieldStore) bool {
+			return fs.Struct != nil && (namedIs(fs.Struct, "x/cfeminter/types", "Params") || namedIs(fs.Struct, "x/cfeminter/types", "Minter"))
+		}, 2, nil) {
+			fs := sb.FS
+			T := fs.Struct.Obj().Name()
+			wanted := false
+			for _, f := range want[T] {
+				if f == fs.Field {
+					wanted = true
+				}
+			}
+			e := EffSite{Chain: sb.Chain, Site: &Site{Caller: fs.Fn}}
+			switch {
+			case wanted:
+				seen[T+"."+fs.Field] = true
+				ok, why := plainCopy(tr.OriginsVia(e, fs.Store.Val, nil), fs.Field)
+				r.Check(ok, "C16.paramfields", "migrated "+T+"."+fs.Field+" is the legacy "+fs.Field, w.Pos(fs.Store.Pos()), "plain copy of the same-named legacy value", "the migrated "+T+"."+fs.Field+" is not a plain copy of the legacy "+fs.Field+": "+why+" - the migrated parameters describe another schedule than the stored ones (the minter state still refers to the old numbering)")
+			case T == "Minter" && fs.Field == "Config":
+				seen["Minter.Config"] = true
+				o := tr.OriginsVia(e, fs.Store.Val, nil)
+				r.Check(o.HasPath(".ExponentialStepMinting") && o.HasPath(".LinearMinting"), "C16.paramfields", "migrated Minter.Config is built from the legacy period's own configuration", w.Pos(fs.Store.Pos()), "wraps the legacy LinearMinting / ExponentialStepMinting objects", "the migrated configuration is not built from the legacy period's LinearMinting / ExponentialStepMinting")
+			}
+		}
+		for _, k := range []string{"Params.MintDenom", "Params.StartTime", "Minter.SequenceId", "Minter.EndTime", "Minter.Config"} {
+			if !seen[k] {
+				r.Bad("C16.paramfields", "migrated "+k+" is set", w.Pos(mp.Pos()), "the migration never assigns "+k)
+			}
+		}
+		// every legacy period is carried over
+		okLoop := false
+		for _, l := range rangeLoops(mp) {
+			if l.Over != nil && loadOfField(l.Over, "Minters", nil) && loopEarlyExit(l) == nil {
+				okLoop = true
+			}
+		}
+		r.Check(okLoop, "C16.paramfields", "every legacy period is migrated", w.Pos(mp.Pos()), "loop over the legacy Minters without early exit", "the loop over the legacy periods is missing or can be left early")
+	}
 }
 
 // isObjectReadBy: v is the very object returned by a call whose name ends in suffix, seen through interface
